@@ -339,7 +339,7 @@ def candidates(decl, rng):
 def plan(tier, seed):
     n = 400 if tier == 'quick' else 3000
     shards = 16 if tier == 'quick' else 48
-    return [{'kind': 'decls', 'n': n // shards, 'dshard': s} for s in range(shards)] + [{'kind': 'governing', 'dshard': 0}]
+    return [{'kind': 'decls', 'n': n // shards, 'dshard': s} for s in range(shards)] + [{'kind': 'governing', 'dshard': 0}, {'kind': 'defattrs', 'dshard': 0}]
 
 
 # ---------------------------------------------------------------------------------------------
@@ -407,9 +407,75 @@ def run_governing(spec, res):
                                       f'allows {sorted(allowed) if allowed is not None else "any"} requires {sorted(required)}; libxml2={arb_valid}')
 
 
+# XSD 1.1 default attribute group: it joins the attribute uses of every complex type of the schema document unless the
+# type says defaultAttributesApply = false (an xs:boolean: 'false' / '0', white space collapsed). Exhaustive catalogue.
+DEFATTR_APPLY = (None, 'true', '1', ' 1 ', 'false', '0', ' 0 ', ' false ')
+DEFATTR_ATTRS = (('own', '1'), ('dr', '2'), ('df', '9'), ('dd', '5'), ('zz', '1'))
+
+
+def defattrs_xsd(apply_values, derived):
+    types = ''
+    for i, ap in enumerate(apply_values):
+        ap_xml = f' defaultAttributesApply="{ap}"' if ap is not None else ''
+        own = '<xs:attribute name="own" type="xs:int"/>'
+        if derived:
+            types += (f'<xs:complexType name="B{i}" defaultAttributesApply="false"><xs:sequence/></xs:complexType>'
+                      f'<xs:element name="e{i}"><xs:complexType{ap_xml}><xs:complexContent><xs:extension base="t:B{i}">{own}'
+                      f'</xs:extension></xs:complexContent></xs:complexType></xs:element>')
+        else:
+            types += f'<xs:element name="e{i}"><xs:complexType{ap_xml}>{own}</xs:complexType></xs:element>'
+    return (f'<xs:schema xmlns:xs="{XS}" targetNamespace="{T}" xmlns:t="{T}" elementFormDefault="qualified" defaultAttributes="t:DA">'
+            f'<xs:attributeGroup name="DA"><xs:attribute name="dr" type="xs:int" use="required"/>'
+            f'<xs:attribute name="df" type="xs:int" fixed="9"/><xs:attribute name="dd" type="xs:int" default="5"/></xs:attributeGroup>'
+            f'{types}</xs:schema>')
+
+
+def run_defattrs(spec, res):
+    xmlschema = env.activate_repo()
+    for derived in (False, True):
+        text = defattrs_xsd(DEFATTR_APPLY, derived)
+        schema = xmlschema.XMLSchema11(text)
+        for i, ap in enumerate(DEFATTR_APPLY):
+            applies = ap is None or ap.strip() in ('true', '1')
+            allowed = {'own'} | ({'dr', 'df', 'dd'} if applies else set())
+            required = {'dr'} if applies else set()
+            for r in range(len(DEFATTR_ATTRS) + 1):
+                for subset in itertools.combinations(DEFATTR_ATTRS, r):
+                    names = {n for n, _ in subset}
+                    want = required <= names and names <= allowed
+                    doc = f'<t:e{i} xmlns:t="{T}"' + ''.join(f' {n}="{v}"' for n, v in subset) + '/>'
+                    res.evaluations += 1
+                    res.count('defattrs:cases')
+                    res.nontrivial.add(env.h8(('defattrs', derived, ap, tuple(sorted(names)))))
+                    case = {'schema': text, 'doc': doc, 'version': '1.1'}
+                    got = schema.is_valid(doc)
+                    if got != want:
+                        res.violation(f'default-attributes:{"false-accept" if got else "false-reject"}:apply={"yes" if applies else "no"}', case,
+                                      f'1.1: defaultAttributesApply={ap!r} ({"extension" if derived else "plain"}) attributes {sorted(names)}: '
+                                      f'library valid={got}, the default group {"applies" if applies else "does not apply"}')
+                        continue
+                    res.count('verdict:agree')
+                    if not want:
+                        continue
+                    for use_defaults in (True, False):
+                        data = schema.decode(doc, use_defaults=use_defaults)
+                        keys = {k[1:] for k in data if k.startswith('@') and not k.startswith(('@xsi:', '@xmlns'))} if isinstance(data, dict) else set()
+                        expect = set(names)
+                        if applies:
+                            expect |= {'df'} | ({'dd'} if use_defaults else set())
+                        if keys != expect:
+                            res.violation(f'default-attributes:decoded-attribute-keys:apply={"yes" if applies else "no"}:use_defaults={use_defaults}',
+                                          dict(case, use_defaults=use_defaults),
+                                          f'1.1: defaultAttributesApply={ap!r} attributes {sorted(names)} decoded keys {sorted(keys)} expected {sorted(expect)}')
+                        else:
+                            res.count('data:agree')
+
+
 def run_shard(spec, res):
     if spec.get('kind') == 'governing':
         return run_governing(spec, res)
+    if spec.get('kind') == 'defattrs':
+        return run_defattrs(spec, res)
     xmlschema = env.activate_repo()
     from lxml import etree
     rng = env.rng_for(PROPERTY, spec['tier'], spec['seed'], spec['dshard'])
